@@ -23,6 +23,7 @@ import (
 	"time"
 
 	"github.com/IrineSistiana/mosdns/v5/pkg/cache"
+	"github.com/IrineSistiana/mosdns/v5/pkg/verifhook"
 
 	"verifharness/hx"
 )
@@ -391,6 +392,105 @@ func runConc(w *hx.Writer, id string, r *hx.RNG, size int, g int, scripts [][]op
 	})
 }
 
+// ---------- a lookup parked between reading the map and reading the entry ----------
+
+var (
+	raceMu   sync.Mutex
+	raceGid  int64 // goroutine whose lookup is to be parked (0 = none)
+	raceHit  chan struct{}
+	raceRel  chan struct{}
+	hookOnce sync.Once
+)
+
+func gid() int64 {
+	var b [64]byte
+	n := runtime.Stack(b[:], false)
+	var id int64
+	fmt.Sscanf(string(b[:n]), "goroutine %d ", &id)
+	return id
+}
+
+// runRace: a Get(k1) is held at the schedule point cache.get.loaded (it has the entry, it has not read it yet)
+// while the main goroutine runs the operations in mid (a sweep or flush that removes the entry, stores that
+// may recycle memory), then the lookup resumes. The history goes to the same linearizability judge as the
+// free-running ones: the lookup must return what was stored under k1 (or a miss), never another key's value.
+func runRace(w *hx.Writer, id string, size int, pre []op, k1 uint64, mid []op, post []op) {
+	hookOnce.Do(func() {
+		verifhook.Set(func(name string) {
+			if name != "cache.get.loaded" {
+				return
+			}
+			raceMu.Lock()
+			mine := raceGid != 0 && raceGid == gid()
+			hit, rel := raceHit, raceRel
+			if mine {
+				raceGid = 0
+			}
+			raceMu.Unlock()
+			if mine {
+				close(hit)
+				<-rel
+			}
+		})
+	})
+	s := newStore(size)
+	defer s.c.Close()
+	var labels []string
+	run := func(t int, o op) {
+		labels = append(labels, hx.App("Inv", hx.Ni(t), o.coq()))
+		labels = append(labels, hx.App("Res", hx.Ni(t), s.do(o)))
+	}
+	for _, o := range pre {
+		run(2, o)
+	}
+	get := op{kind: "get", k: k1}
+	hit, rel := make(chan struct{}), make(chan struct{})
+	done := make(chan string, 1)
+	ready := make(chan struct{})
+	go func() {
+		raceMu.Lock()
+		raceGid, raceHit, raceRel = gid(), hit, rel
+		raceMu.Unlock()
+		close(ready)
+		done <- s.do(get)
+	}()
+	<-ready
+	labels = append(labels, hx.App("Inv", "1", get.coq()))
+	parked := false
+	select {
+	case <-hit:
+		parked = true
+	case res := <-done: // a miss never reaches the point
+		labels = append(labels, hx.App("Res", "1", res))
+		done <- res
+	case <-time.After(3 * time.Second):
+	}
+	if parked {
+		for _, o := range mid {
+			run(2, o)
+		}
+		close(rel)
+		select {
+		case res := <-done:
+			labels = append(labels, hx.App("Res", "1", res))
+		case <-time.After(3 * time.Second):
+		}
+	} else {
+		raceMu.Lock()
+		raceGid = 0
+		raceMu.Unlock()
+	}
+	for _, o := range post {
+		run(2, o)
+	}
+	w.Emit("race", hx.Case{
+		ID:   id,
+		Coq:  hx.App("CConc", hx.Z(int64(size)), hx.List(labels)),
+		Desc: map[string]any{"kind": "race", "size": size, "parked": parked, "events": len(labels)},
+		FKey: "race",
+	})
+}
+
 func genConc(r *hx.RNG) (int, int, [][]op) {
 	size := hx.Pick(r, sizes)
 	g := r.Range(2, 4)
@@ -523,6 +623,38 @@ func main() {
 			id := fmt.Sprintf("cat:fill:%d:%d", size, n)
 			if o.Want(id) {
 				runFill(w, id, size, n)
+			}
+		}
+	}
+	// catalogue: a lookup parked between reading the map and reading the entry
+	{
+		St := func(k, v uint64, e int64) op { return op{kind: "store", k: k, v: v, t: e} }
+		G := func(k uint64) op { return op{kind: "get", k: k} }
+		Gc := func(t int64) op { return op{kind: "gc", t: t} }
+		L := op{kind: "len"}
+		type rc struct {
+			pre  []op
+			k    uint64
+			mid  []op
+			post []op
+		}
+		races := []rc{
+			// the entry is swept away under the parked lookup and other keys are stored (memory may be reused)
+			{[]op{St(130, 1301, 100)}, 130, []op{Gc(200), St(131, 1311, 3600), St(132, 1321, 3600)}, []op{G(130), G(131), L}},
+			{[]op{St(130, 1301, 100), St(7, 71, 100)}, 130, []op{Gc(200), St(131, 1311, 3600), St(7, 72, 3600), St(130, 1302, 3600)}, []op{G(130), G(7)}},
+			// flushed away, then stores
+			{[]op{St(5, 51, 3600)}, 5, []op{{kind: "flush"}, St(6, 61, 3600), St(69, 691, 3600)}, []op{G(5), G(6)}},
+			// overwritten under the parked lookup: old or new value, nothing else
+			{[]op{St(9, 91, 3600)}, 9, []op{St(9, 92, 3600), St(73, 731, 3600)}, []op{G(9)}},
+			// control: the sweep finds nothing to delete
+			{[]op{St(11, 111, 3600)}, 11, []op{Gc(200), St(12, 121, 3600)}, []op{G(11), G(12)}},
+		}
+		for i, x := range races {
+			for j, size := range []int{1100, 10} {
+				id := fmt.Sprintf("cat:race:%d:%d", i, j)
+				if o.Want(id) {
+					runRace(w, id, size, x.pre, x.k, x.mid, x.post)
+				}
 			}
 		}
 	}
